@@ -78,17 +78,19 @@ def h_normal(ctx):
     e = ctx.eng
     nd = ctx.mod('sempler.normal_distribution')
     p, n = ctx.params['p'], ctx.params['n']
-    mean = [e.real('m_%d' % i) for i in range(p)]
+    dt = ctx.params.get('dtype', 'float')
+    mk = e.real if dt == 'float' else e.int
+    mean = [mk('m_%d' % i) for i in range(p)]
     cov = [[None] * p for _ in range(p)]
     for i in range(p):
         for j in range(i, p):
-            cov[i][j] = cov[j][i] = e.real('c_%d_%d' % (i, j))
+            cov[i][j] = cov[j][i] = mk('c_%d_%d' % (i, j))
     seed = e.int('seed')
     e.assume(seed >= 0)
     e.assume(seed < 2 ** 32)
     cl = []
     try:
-        dist = nd.NormalDistribution(np.array(mean, dtype=float), np.array(cov, dtype=float))
+        dist = nd.NormalDistribution(np.array(mean, dtype=dt), np.array(cov, dtype=dt))
         X = dist.sample(n, random_state=seed)
         outcome = 'returned'
         ok = isinstance(X, np.ndarray) and X.shape == (n, p)
@@ -101,7 +103,7 @@ def h_normal(ctx):
     except Exception as ex:
         outcome = 'raised ' + type(ex).__name__
         cl.append(('sampling must not raise (%s: %s)' % (type(ex).__name__, str(ex)[:80]), False))
-    return PathResult(outcome, cl, inputs=dict(kind='normal', mean=mean, cov=cov, n=n, seed=seed), call='normal', info=dict(p=p, n=n))
+    return PathResult(outcome, cl, inputs=dict(kind='normal', mean=mean, cov=cov, n=n, seed=seed, dtype=dt), call='normal', info=dict(p=p, n=n, dtype=dt))
 
 
 def h_lganm(ctx):
@@ -277,6 +279,10 @@ def replay(rec):
             cov = numpy.array(unj_float(inp['cov']), dtype=float)
             if generic:
                 cov = numpy.eye(len(mean)) + 0.5
+            if inp.get('dtype') == 'int':
+                # integer-typed parameters: a valid integer covariance with the same zero pattern on the diagonal
+                mean = numpy.array([int(x) for x in mean], dtype=int)
+                cov = numpy.diag([2 if cov[i, i] != 0 else 0 for i in range(len(mean))]).astype(int) if numpy.linalg.eigvalsh(cov).min() < 0 or generic else cov.astype(int)
             ev = numpy.linalg.eigvalsh(cov)
             if ev.min() < -1e-9:
                 # the counterexample's covariance is not PSD: use a PSD one with the same zero pattern on the diagonal
@@ -349,7 +355,8 @@ def obligations(tier):
     ob = []
     ns = (1, 2) if q else (1, 2, 3)
     for p in (1, 2, 3):
-        ob.append(Obligation('normal_p%d' % p, h_normal, [dict(p=p, n=n) for n in (0,) + tuple(ns)], "NormalDistribution.sample, %d variables, symbolic mean / covariance / seed" % p,
+        ob.append(Obligation('normal_p%d' % p, h_normal, [dict(p=p, n=n) for n in (0,) + tuple(ns)] + [dict(p=p, n=1, dtype='int')],
+                             "NormalDistribution.sample, %d variables, symbolic mean / covariance / seed (float and integer-typed parameters)" % p,
                              expect=('returned',), weight=p))
     for p in (1, 2):
         ob.append(Obligation('lganm_p%d' % p, h_lganm, [dict(c, n=n) for c in I.dag_pair_cubes(p, 0) for n in ns],
